@@ -102,10 +102,23 @@ func Try(body L, catches L, hasfin bool, fin L) M {
 	return M{"k": "try", "body": body, "catches": catches, "hasfin": hasfin, "fin": fin}
 }
 func Call(dst, f string, args ...any) M {
-	return M{"k": "call", "dst": dst, "f": f, "args": B(args...)}
+	return M{"k": "call", "dst": dst, "decl": false, "f": f, "args": B(args...)}
+}
+
+// CallDecl declares dst with the result (`dst := f(args)`).
+func CallDecl(dst, f string, args ...any) M {
+	return M{"k": "call", "dst": dst, "decl": true, "f": f, "args": B(args...)}
 }
 func CallC(dst, c string, args ...any) M {
-	return M{"k": "callc", "dst": dst, "c": c, "args": B(args...)}
+	return M{"k": "callc", "dst": dst, "decl": false, "c": c, "args": B(args...)}
+}
+func CallCDecl(dst, c string, args ...any) M {
+	return M{"k": "callc", "dst": dst, "decl": true, "c": c, "args": B(args...)}
+}
+
+// ACall is `dst = f(args).await_sync` on an async method.
+func ACall(dst, f string, args ...any) M {
+	return M{"k": "acall", "dst": dst, "decl": false, "f": f, "args": B(args...)}
 }
 
 // Lam declares n as a closure. ret: Elk return type annotation of the closure.
@@ -116,10 +129,26 @@ func Lam(n string, params []string, ret string, body L) M {
 	}
 	return M{"k": "lam", "n": n, "params": ps, "ret": ret, "body": body, "fn": "<closure>"}
 }
+// Gen declares dst as a new generator object (`dst := f(args)` on a generator method).
 func Gen(dst, f string, args ...any) M {
 	return M{"k": "gen", "dst": dst, "f": f, "args": B(args...)}
 }
-func Next(dst, g string) M { return M{"k": "next", "dst": dst, "g": g} }
+func Next(dst, g string) M     { return M{"k": "next", "dst": dst, "decl": false, "g": g} }
+func NextDecl(dst, g string) M { return M{"k": "next", "dst": dst, "decl": true, "g": g} }
+
+// ForGen is `for v in f(args) ... end` over a generator method. The machine executes the expansion.
+func ForGen(label, v, f string, args L, body L, uniq string) M {
+	g := "g_" + uniq
+	expansion := B(
+		M{"k": "gen", "dst": g, "f": f, "args": args},
+		Loop(label, B(
+			Let(v, "Int", Int(0)),
+			Try(B(Next(v, g)), L{CatchSym(4, B(Break("")))}, false, nil),
+			body,
+		)),
+	)
+	return M{"k": "forgen", "label": label, "var": v, "f": f, "args": args, "body": body, "desugared": expansion}
+}
 func Yield(e M) M          { return M{"k": "yield", "e": e} }
 
 // Def is a method definition. ret: Elk return type; gen: generator method.
@@ -128,7 +157,14 @@ func Def(params []string, ret string, gen bool, body L) M {
 	for _, p := range params {
 		ps = append(ps, p)
 	}
-	return M{"params": ps, "ret": ret, "gen": gen, "body": body}
+	return M{"params": ps, "ret": ret, "gen": gen, "async": false, "throws": "", "body": body}
+}
+
+// AsyncDef is an async method definition.
+func AsyncDef(params []string, ret string, body L) M {
+	d := Def(params, ret, false, body)
+	d["async"] = true
+	return d
 }
 
 // Prog builds a program; defs must contain "main_".
